@@ -1726,23 +1726,22 @@ mod tests {
                 }),
                 left_keys: vec![1],
                 right_keys: vec![0],
-                output_schema: vec![
-                    "x".to_string(),
-                    "y".to_string(),
-                    "y".to_string(),
-                    "z".to_string(),
-                ],
+                // join output = left columns + right NON-KEY columns
+                output_schema: vec!["x".to_string(), "y".to_string(), "z".to_string()],
             }),
-            predicate: Predicate::ColumnLtConst(3, 100), // z < 100, only references right side (col 3)
+            predicate: Predicate::ColumnLtConst(2, 100), // z < 100, only references right side (col 2)
         };
 
         let optimized = optimizer.pushdown_filters(ir);
 
-        // Should push filter down to right side of join
+        // Should push filter down to right side of join, onto s.z (column 1 of s)
         match optimized {
-            IRNode::Join { right, .. } => {
-                assert!(matches!(*right, IRNode::Filter { .. }));
-            }
+            IRNode::Join { right, .. } => match *right {
+                IRNode::Filter { predicate, .. } => {
+                    assert_eq!(predicate, Predicate::ColumnLtConst(1, 100));
+                }
+                _ => panic!("Expected Filter on right"),
+            },
             _ => panic!("Expected Join with Filter on right"),
         }
     }
